@@ -42,6 +42,20 @@ func corruptions() []corruption {
 		}
 		return out
 	}
+	// the last answer repeated in the first slot (a copy made backwards)
+	dupBack := func(out []any) []any {
+		if len(out) > 1 {
+			out[0] = out[len(out)-1]
+		}
+		return out
+	}
+	// a correct batch delivered in reverse order is acceptable only as an error or as complete data
+	reverse := func(out []any) []any {
+		for i, j := 0, len(out)-1; i < j; i, j = i+1, j-1 {
+			out[i], out[j] = out[j], out[i]
+		}
+		return out
+	}
 	drop := func(out []any) []any {
 		if len(out) > 0 {
 			return out[:len(out)-1]
@@ -63,6 +77,8 @@ func corruptions() []corruption {
 		cs = append(cs,
 			corruption{name: "reorder", method: m, apply: swap},
 			corruption{name: "duplicate", method: m, apply: dup},
+			corruption{name: "duplicate-backward", method: m, apply: dupBack},
+			corruption{name: "reversed", method: m, apply: reverse},
 			corruption{name: "drop-last", method: m, apply: drop},
 			corruption{name: "null-result", method: m, apply: null0},
 			corruption{name: "error-member", method: m, apply: err0},
